@@ -49,7 +49,7 @@ def run(ctx):
     # a protocol unit is one queue element), safety for N = 1..3, liveness under fairness of the fan-out loop,
     # the timer and the write deadlines only
     for n in (1, 2, 3):
-        cfg = write_cfg("MC_Backpressure_fine_%d.cfg" % n, "FineSpec", n, 1, True, 4 if q else 5, 3, 2, 2, False,
+        cfg = write_cfg("MC_Backpressure_fine_%d.cfg" % n, "FineSpec", n, 1, True, 4 if q else 5, 2 if q else 3, 2, 2, False,
                         invs="WholeUnits NoBlocking QueueBound", view="FineView")
         res = E.tlc(ctx, "MC_Backpressure", cfg, timeout=1500, deadlock=False)
         E.require_design_ok(ctx, res, cfg)
@@ -77,7 +77,7 @@ def run(ctx):
         res = E.tlc(ctx, "MC_Backpressure", cfg, timeout=1500, deadlock=False)
         E.require_design_ok(ctx, res, cfg)
         g = E.Graph.load(res)
-        paths, ncov = g.edge_cover(ctx.rng, max_len=22, max_paths=80 if q else 1400)
+        paths, ncov = g.edge_cover(ctx.rng, max_len=22, max_paths=100 if q else 1400)
         ctx.log("schedules N=%d: %d abstract states, %d edges, %d paths (%d edges covered)" %
                 (n, res["distinct"], g.nedges, len(paths), ncov))
         for p in paths:
